@@ -1,38 +1,145 @@
-(* Model/GCPointer.v -- which metadata version a collection works from: MetadataManager._current_version_info (pointer,
-   existence of the hinted file, recovery by scanning = highest version on storage) followed by the collector's own second,
-   independent resolution of the pointer (GarbageCollector._require_hinted_metadata_present).  Definitions only.
-   Storage may hold versions that were never published (a writer died between writing v(N+1) and flipping the pointer). *)
-From Coq Require Import List Arith Bool.
+(* Model/GCPointer.v -- which metadata FILE a collection works from, and the collection run on it.  Definitions only.
+
+   Layer 1 (generic in the type D of a decoded metadata document): MetadataManager._current_version_info (pointer, existence of
+   the hinted file, recovery by scanning = highest version on storage, ties by modification time), refresh()'s read of the
+   resolved file, then the collector's own second, independent resolution (GarbageCollector._require_hinted_metadata_present:
+   the pointer is read again; when it names a file, that file must exist, must be readable, and must hold exactly the metadata
+   refresh() returned -- `_metadata_to_dict(pointed) != _metadata_to_dict(metadata)`: the parameter `same`).
+   A metadata file is identified by its NAME (v<N>[-<suffix>].metadata.json): two files may carry the same version number
+   (historical races, a dead writer's unpublished leftover next to the published file of the same number), and the code
+   compares metadata CONTENT, not version numbers.
+   Storage may hold versions that were never published (a writer died between writing v(N+1) and flipping the pointer).
+
+   Layer 2: the documents are JSON documents (Model/Doc.v jv); a file whose document the reader refuses
+   (accepts ext gen_metadata_shape = false) or that is not JSON at all (mf_body = None) cannot be read: refresh() / the
+   collector's re-read raise.  The collection then runs on the resolved document: Model/GCDoc.v collect_doc (dangling
+   current_snapshot_id: refused; otherwise Model/GC.v gc_run on the manifest lists of all its snapshots). *)
+From Coq Require Import ZArith List Arith Bool String.
+Require Import DS.Model.PyStr DS.Gen.GenNorm DS.Model.GC DS.Model.Doc DS.Gen.GenDoc DS.Model.GCDoc.
 Import ListNotations.
+Open Scope Z_scope.
 
-Inductive pans := PSome (v : nat) | PNone | PRaise.      (* a read of the pointer: names v / looks missing or garbled / raises *)
-Inductive pex := XTrue | XFalse | XRaise.                (* exists(metadata file of version v) *)
-Inductive pres := RAbort | RNoTable | RUse (v : nat).
+Inductive pans := PSome (name : string) | PNone | PRaise.   (* _read_version_hint: names a file / looks missing or garbled / raises *)
+Inductive pex := XTrue | XFalse | XRaise.                   (* storage.exists(metadata/<name>) *)
 
-Definition scan (vs : list nat) : pres :=
-  match vs with [] => RNoTable | _ => RUse (fold_right Nat.max 0 vs) end.
+(* what ONE resolution of the pointer is told by storage (truth and faults together) *)
+Record answers := mkA {
+  a_hint : pans;
+  a_exists : string -> pex;
+  a_list_raises : bool;                 (* list_files(metadata) of the recovery scan raises *)
+  a_stat_raises : string -> bool;       (* get_modified_time during the scan raises (swallowed: mtime -1) *)
+  a_read_raises : string -> bool        (* read_json of a metadata file raises (transient failure) *)
+}.
 
-(* refresh(): the pointer is only a hint *)
-Definition refresh_resolve (vs : list nat) (a1 : pans) (x1 : nat -> pex) : pres :=
-  match a1 with
-  | PRaise => RAbort
-  | PNone => scan vs
-  | PSome v => match x1 v with XTrue => RUse v | XFalse => scan vs | XRaise => RAbort end
+Section Resolve.
+  Variable D : Type.
+  Variable same : D -> D -> bool.
+
+  (* mf_body = None: the file cannot be read as table metadata (json.loads or _dict_to_metadata raises) *)
+  Record mfile := mkMF { mf_name : string; mf_version : nat; mf_mtime : Z; mf_body : option D }.
+
+  Fixpoint find_file (n : string) (fs : list mfile) : option mfile :=
+    match fs with
+    | [] => None
+    | f :: r => if String.eqb n (mf_name f) then Some f else find_file n r
+    end.
+
+  (* _recover_version_from_files: highest version; among files of the same version the most recently modified; the first
+     one listed among equals *)
+  Definition scan_step (a : answers) (best : option (mfile * Z)) (f : mfile) : option (mfile * Z) :=
+    let mt := if a_stat_raises a (mf_name f) then (-1) else mf_mtime f in
+    match best with
+    | None => Some (f, mt)
+    | Some (b, bm) =>
+        if Nat.ltb (mf_version b) (mf_version f) then Some (f, mt)
+        else if Nat.eqb (mf_version f) (mf_version b) then (if bm <? mt then Some (f, mt) else best)
+        else best
+    end.
+  Definition scan_pick (a : answers) (fs : list mfile) : option mfile :=
+    option_map fst (fold_left (scan_step a) fs None).
+
+  Inductive info := IAbort | INoTable | IName (n : string).
+
+  Definition scan (a : answers) (fs : list mfile) : info :=
+    if a_list_raises a then IAbort
+    else match scan_pick a fs with Some f => IName (mf_name f) | None => INoTable end.
+
+  (* _current_version_info: the pointer is only a hint *)
+  Definition current_info (a : answers) (fs : list mfile) : info :=
+    match a_hint a with
+    | PRaise => IAbort
+    | PNone => scan a fs
+    | PSome n => match a_exists a n with XTrue => IName n | XFalse => scan a fs | XRaise => IAbort end
+    end.
+
+  (* _read_metadata_file: a file that is not there, a read that fails, a document that does not parse: raises *)
+  Definition load (a : answers) (fs : list mfile) (n : string) : option (mfile * D) :=
+    match find_file n fs with
+    | Some f => if a_read_raises a n then None else match mf_body f with Some d => Some (f, d) | None => None end
+    | None => None
+    end.
+
+  Inductive rres := RAbort | RNoTable | RUse (f : mfile) (d : D).
+
+  (* refresh() *)
+  Definition refresh_resolve (a : answers) (fs : list mfile) : rres :=
+    match current_info a fs with
+    | IAbort => RAbort
+    | INoTable => RNoTable
+    | IName n => match load a fs n with Some (f, d) => RUse f d | None => RAbort end
+    end.
+
+  (* the collector's check: re-resolve the pointer; proceed only if there is no pointer, or it names an existing, readable
+     file holding the metadata in use *)
+  Definition guard (a : answers) (fs : list mfile) (d : D) : bool :=
+    match a_hint a with
+    | PRaise => false
+    | PNone => true
+    | PSome n =>
+        match a_exists a n with
+        | XTrue => match load a fs n with Some (_, d') => same d' d | None => false end
+        | _ => false
+        end
+    end.
+
+  Definition collect_resolve (a1 a2 : answers) (fs : list mfile) : rres :=
+    match refresh_resolve a1 fs with
+    | RUse f d => if guard a2 fs d then RUse f d else RAbort
+    | r => r
+    end.
+
+  (* a faulty read of the pointer never fabricates another valid pointer: it tells the truth (the published file p), looks
+     missing / garbled, or raises.  Nothing is assumed about the other answers (exists, listing, stat, file reads). *)
+  Definition honest (p : mfile) (a : answers) : Prop :=
+    a_hint a = PSome (mf_name p) \/ a_hint a = PNone \/ a_hint a = PRaise.
+End Resolve.
+
+Arguments mkMF {D}. Arguments mf_name {D}. Arguments mf_version {D}. Arguments mf_mtime {D}. Arguments mf_body {D}.
+Arguments find_file {D}. Arguments scan_pick {D}. Arguments refresh_resolve {D}. Arguments guard {D}.
+Arguments collect_resolve {D}. Arguments honest {D}. Arguments RAbort {D}. Arguments RNoTable {D}. Arguments RUse {D}.
+
+(* ---------------------------------------------------------------- layer 2: documents, and the collection on top *)
+(* what the reader makes of a file's document *)
+Definition parse_file (ext : string -> jv -> bool) (f : mfile jv) : mfile jv :=
+  mkMF (mf_name f) (mf_version f) (mf_mtime f)
+       (match mf_body f with Some d => if accepts ext gen_metadata_shape d then Some d else None | None => None end).
+
+Inductive presult := PAbort | PNoTable | PUse (f : mfile jv) (res : doc_result).
+
+(* collect(): pointer resolved twice, then the collection on the resolved document.  PAbort: GarbageCollectionAborted (or the
+   exception refresh() raised) before anything was deleted; PNoTable: `if not metadata: return stats`. *)
+Definition collect_pointer (ext : string -> jv -> bool) (same : jv -> jv -> bool) (tp : string) (grace now timeout : Z) (o : oracle)
+    (a1 a2 : answers) (files : list (mfile jv)) (st : store) : presult :=
+  match collect_resolve same a1 a2 (map (parse_file ext) files) with
+  | RAbort => PAbort
+  | RNoTable => PNoTable
+  | RUse f d => PUse f (collect_doc ext tp grace now timeout o d st)
   end.
 
-(* the collector's check: re-resolve the pointer; proceed only if it names an existing file holding the metadata in use *)
-Definition guard (used : nat) (a2 : pans) (x2 : nat -> pex) : bool :=
-  match a2 with
-  | PRaise => false
-  | PNone => true
-  | PSome v => match x2 v with XTrue => Nat.eqb v used | _ => false end
-  end.
+Definition pointer_deleted (r : presult) : list key :=
+  match r with PUse _ res => doc_deleted res | _ => [] end.
 
-Definition collect_resolve (vs : list nat) (a1 : pans) (x1 : nat -> pex) (a2 : pans) (x2 : nat -> pex) : pres :=
-  match refresh_resolve vs a1 x1 with
-  | RUse u => if guard u a2 x2 then RUse u else RAbort
-  | r => r
-  end.
-
-(* a faulty read never fabricates another valid pointer: it tells the truth, looks missing / garbled, or raises *)
-Definition honest (p : nat) (a : pans) : Prop := a = PSome p \/ a = PNone \/ a = PRaise.
+(* rendering for the correspondence harness (D := string, the file's own name as its content; same := String.eqb):
+   "!abort" / "!notable" / the name of the file the collection worked from *)
+Definition render_resolve (r : @rres string) : string :=
+  match r with RAbort => "!abort" | RNoTable => "!notable" | RUse f _ => mf_name f end.
